@@ -98,6 +98,10 @@ def run(ctx):
         for n in sorted({1, max(1, cs - 1), cs, cs + 1, 2 * cs, 2 * cs + 1, 3 * cs - 1 if cs > 1 else 3, 5 * cs + 2}):
             combos.append((n, cs))
     reps = ctx.n(1, 4)
+    if not ctx.quick():
+        grid = [(n, cs) for n in range(1, 61) for cs in range(1, 21)]
+        rng.shuffle(grid)
+        combos = combos + grid[:200]
     idx = 0
     impl.set_threads(1)
     for (n, cs) in combos:
